@@ -372,6 +372,34 @@ def run(chk):
     chk.traces += len(sops)
     chk.sample({"argv": cmds[0][1], "impl": {k: impl[0].get(k) for k in ("ok", "nerrors", "writes")}, "model": model[0]})
     chk.traces += len(aops)
+    # ---------------- the colour option on the binary built from /repo: honoured for every kind of diagnostic, wherever it stands
+    # (finding F75, repaired: errors about the command line itself were always coloured)
+    import subprocess, tempfile, shutil
+    binary = fw.build_real_binary()
+    tmp = tempfile.mkdtemp(prefix="c18-", dir=fw.CACHE)
+    try:
+        open(os.path.join(tmp, "good.asm"), "w").write("#d8 1\n")
+        open(os.path.join(tmp, "bad.asm"), "w").write("#d8 nosuchsymbol\n")
+        faults = [["good.asm", "-f", "nosuch"], ["good.asm", "-f", "annotated,base:3"], ["good.asm", "-d", "x="], ["good.asm", "-t", "0"],
+                  ["good.asm", "--bogus"], ["bad.asm", "-p"], ["good.asm", "-f", "binary,foo:1"], []]
+        for fa in faults:
+            for colour in (["--color=off"], ["--color", "off"], ["--color=on"], []):
+                argv = list(fa)
+                k = rng.randrange(len(argv) + 1) if argv else 0
+                # (not between an option and its value)
+                while k > 0 and k < len(argv) and argv[k - 1] in ("-f", "-d", "-t"):
+                    k += 1
+                argv[k:k] = colour
+                r = subprocess.run([binary] + argv + ["-q"], cwd=tmp, stdout=subprocess.PIPE, stderr=subprocess.PIPE, timeout=20)
+                chk.evaluations += 1
+                text = r.stderr + r.stdout
+                chk.count("colour_" + ("off" if "off" in " ".join(colour) else "on"))
+                if b"error" not in text or r.returncode != 1:
+                    chk.violate("a faulty command line is not reported", {"argv": argv}, "exit 1 and an error", "exit %d: %s" % (r.returncode, text[-120:].decode(errors="replace")))
+                elif ("off" in " ".join(colour)) == (b"\x1b[" in text):
+                    chk.violate("the colour option is not honoured", {"argv": argv}, "escape sequences exactly without --color=off", text[-160:].decode(errors="replace"))
+    finally:
+        shutil.rmtree(tmp, ignore_errors=True)
     chk.notes.append("undocumented aliases accepted: annotatedhex, c (known finding F27); usage formats: %d" % len(usage))
 
 
